@@ -31,7 +31,11 @@ BATTERY = [["conv", "3", "meter", "inch"], ["conv", "2", "kilometer", "mile"], [
            ["compat", "second"], ["base", "mile"], ["tobase", "5", "psi"], ["contains", "smoot"], ["contains", "zork"],
            ["conv", "500", "nm", "terahertz"], ["members", "root"], ["conv", "1", "xq1z", "meter"],
            ["members", "newgroup1"], ["fmt_q", "2.5", "meter / second ** 2", "~P"], ["name", "kilonewtons"], ["settings"],
-           ["compat", "mile"], ["base", "gallon"]]
+           ["compat", "mile"], ["base", "gallon"], ["conv_ctx", "2", "second", "meter", "zctx"]]
+
+
+def _zctx_rule(k):
+    return lambda ureg, x, **kw: x * ureg.Quantity(k, "meter / second")
 
 
 def num(s):
@@ -166,7 +170,7 @@ class ProgGen:
             self.ndef += 1
             node = rng.choice([n for n in self.nodes if n in ("A", "B")])
             op = rng.choice(["define", "define", "define_prefix", "define_alias", "ctx_on", "ctx_off", "system", "new_group",
-                             "group_add"])
+                             "group_add", "ctx_edit"])
             s = {"id": sid, "k": "evolve", "node": node, "op": op}
             if op == "define":
                 s["line"] = f"xq{self.ndef}z = {rng.choice(['2', '0.5', '7'])} * meter"
@@ -180,6 +184,8 @@ class ProgGen:
                 s["probe"] = ["conv", "1", f"za{self.ndef}q", "inch"]
             elif op == "system":
                 s["name"] = rng.choice(["SI", "cgs", "imperial", "mks"])
+            elif op == "ctx_edit":
+                s["factor"] = rng.choice([5, 7, 11])
             elif op == "new_group":
                 s["name"] = f"newgroup{self.ndef}"
             elif op == "group_add":
@@ -199,7 +205,7 @@ class ProgGen:
                 a, b = rng.choice(pairs)
             return {"id": sid, "k": "cross", "a": a, "b": b, "op": rng.choice(["add", "sub", "mul", "div", "lt", "ge", "le", "gt", "pow", "floordiv", "mod", "np_add", "np_multiply"])}
         if r < 0.97:
-            return {"id": sid, "k": "touch_lazy", "how": rng.choice(["getattr", "call", "item", "setattr", "quantity"])}
+            return {"id": sid, "k": "touch_lazy", "how": rng.choice(["getattr", "call", "item", "setattr", "quantity", "contains", "iter", "dir", "app_contains"])}
         return {"id": sid, "k": "gc"}
 
 
@@ -320,7 +326,12 @@ class _Run:
 
     def new_registry(self):
         T = {"float": float, "Fraction": Fraction, "Decimal": Decimal}[self.case.get("knobs", {}).get("numtype", "float")]
-        return self.pint.UnitRegistry(non_int_type=T)
+        ureg = self.pint.UnitRegistry(non_int_type=T)
+        # a context built in Python: its rule is replaced later on one registry of the copied pair (ctx_edit)
+        ctx = self.pint.Context("zctx")
+        ctx.add_transformation("[time]", "[length]", _zctx_rule(3))
+        ureg.add_context(ctx)
+        return ureg
 
     def ensure_A(self):
         if "A" not in self.nodes:
@@ -709,6 +720,11 @@ print('REMOTE ' + json.dumps(out))
             ureg.disable_contexts()
         elif k == "system":
             ureg.default_system = op["name"]
+        elif k == "ctx_edit":
+            # the context object this registry holds gets another rule function: no other registry may notice
+            obj = ureg.remove_context("zctx")
+            obj.add_transformation("[time]", "[length]", _zctx_rule(op["factor"]))
+            ureg.add_context(obj)
         elif k == "new_group":
             ureg.get_group(op["name"])
         elif k == "group_add":
@@ -783,6 +799,24 @@ print('REMOTE ' + json.dumps(out))
                 L["meter"]
             elif how == "setattr":
                 L.force_ndarray_like = False
+            elif how == "contains":
+                # operators and built-ins look their methods up on the class: the first touch may be one of them
+                if "kilometers" not in L or "nosuchunit" in L:
+                    raise ValueError("membership answered wrongly")
+            elif how == "iter":
+                if "meter" not in set(iter(L)):
+                    raise ValueError("iteration does not list meter")
+            elif how == "dir":
+                if "meter" not in dir(L):
+                    raise ValueError("dir() does not list meter")
+            elif how == "app_contains":
+                # the same through the application-registry wrapper, whatever registry it wraps at this moment
+                app = self.pint.application_registry
+                if "kilometers" not in app or "nosuchunit" in app:
+                    raise ValueError("membership through the application registry answered wrongly")
+                if app.get() is not L:
+                    self.log.ev(s["id"], "touch_lazy", how, "not-the-lazy-one")
+                    return how + ":other"
             else:
                 L.Quantity(2, "kilometer")
         except Exception as e:
